@@ -15,6 +15,7 @@ func registerIOIntrinsics(reg func(string, intrinsic), used func(string, intrins
 		v := symFloat{t, 64}
 		m.assume(m.binop(token.GEQ, nil, v, float64(0)))
 		m.assume(m.binop(token.LSS, nil, v, float64(1)))
+		m.lastRand = v
 		return v
 	}
 	newOpaque := func(fr *frame) value {
@@ -31,6 +32,15 @@ func registerIOIntrinsics(reg func(string, intrinsic), used func(string, intrins
 	reg("math/rand.New", used("math/rand (arbitrary values in the documented range)", func(m *Machine, fr *frame, a []value) value {
 		return newOpaque(fr)
 	}))
+	reg(vpPath+".NewRand", used("math/rand (arbitrary values in the documented range)", func(m *Machine, fr *frame, a []value) value {
+		return newOpaque(fr)
+	}))
+	reg(vpPath+".LastRandFloat", func(m *Machine, fr *frame, a []value) value {
+		if m.lastRand == nil {
+			panic(engineFault{"LastRandFloat before any Float64"})
+		}
+		return m.lastRand
+	})
 	reg("math/rand.Int63", func(m *Machine, fr *frame, a []value) value { return int64(0) })
 	reg("math/rand.Int", func(m *Machine, fr *frame, a []value) value { return int(0) })
 	reg("math/rand.Seed", func(m *Machine, fr *frame, a []value) value { return nil })
@@ -46,7 +56,23 @@ func registerIOIntrinsics(reg func(string, intrinsic), used func(string, intrins
 			m.addPC(m.tt.Not(m.tt.App("fp.isNaN", sortBool, t)))
 			m.addPC(m.tt.Not(m.tt.App("fp.isInfinite", sortBool, t)))
 		}
-		return symFloat{t, 64}
+		v := symFloat{t, 64}
+		// harness option "normTriples": consecutive triples of normal
+		// deviates are assumed to have a norm in (0.02, 50) (rejection loops
+		// that retry outside such a range are then outside the claim)
+		if m.h.Params["normTriples"] == 1 && m.mode == ModeReal {
+			m.normBuf = append(m.normBuf, v)
+			if len(m.normBuf) == 3 {
+				var sq value = float64(0)
+				for _, x := range m.normBuf {
+					sq = m.binop(token.ADD, nil, sq, m.binop(token.MUL, nil, x, x))
+				}
+				m.assume(m.binop(token.GTR, nil, sq, float64(0.02*0.02)))
+				m.assume(m.binop(token.LSS, nil, sq, float64(50*50)))
+				m.normBuf = nil
+			}
+		}
+		return v
 	}
 	reg("math/rand.NormFloat64", used("math/rand (arbitrary values in the documented range)", normFloat))
 	reg("(*math/rand.Rand).NormFloat64", used("math/rand (arbitrary values in the documented range)", normFloat))
